@@ -185,6 +185,8 @@ def check(run, replay=None):
             for i in range(0, len(grp), 25):
                 cases.append(("groups%d" % (i // 25), grp[i:i + 25]))
     if not WHITEBOX["ok"]:
+        # direct calls of static functions are not available in the black-box build
+        cases = [(n, ls) for n, ls in cases if not any(l.split()[0] in ("rawrestrict", "groups") for l in ls if l.strip())]
         run.violation("correspondence:whitebox-build",
                       "harness/hwv_distances.c no longer compiles with the current hwloc/distances.c compiled into it (a static function it calls directly changed): the direct-call correspondence of hwloc_internal_distances_restrict / hwloc__find_groups_by_min_distance / hwloc__check_grouping_matrix is broken; the public-API histories below were still run with the black-box build",
                       "kind: correspondence\ncase: white-box build of harness/hwv_distances.c\n" + WHITEBOX["error"], no_input=True)
